@@ -1,6 +1,7 @@
 package rules
 
 import (
+	"os"
 	"fmt"
 	"go/token"
 	"strings"
@@ -518,6 +519,46 @@ func readOnlyGlobal(p *eng.Prog, g *ssa.Global) bool {
 	return !token.IsExported(g.Name())
 }
 
+// splitParts: the two complementary slices x[:e] and x[e:] of one byte slice, e = len(x) - K, cut in h.
+func splitParts(p *eng.Prog, h *ssa.Function) (lo, hi *ssa.Slice) {
+	if h == nil {
+		return nil, nil
+	}
+	isCut := func(e ssa.Value, x ssa.Value) bool {
+		bo, ok := p.Resolve(e).(*ssa.BinOp)
+		if !ok || bo.Op != token.SUB {
+			return false
+		}
+		if _, isK := eng.ConstInt(bo.Y); !isK {
+			return false
+		}
+		call, ok := bo.X.(*ssa.Call)
+		if !ok {
+			return false
+		}
+		bi, ok := call.Call.Value.(*ssa.Builtin)
+		return ok && bi.Name() == "len" && p.Resolve(call.Call.Args[0]) == p.Resolve(x)
+	}
+	for _, b := range h.Blocks {
+		for _, ins := range b.Instrs {
+			sl, ok := ins.(*ssa.Slice)
+			if !ok {
+				continue
+			}
+			switch {
+			case sl.Low == nil && sl.High != nil && isCut(sl.High, sl.X):
+				lo = sl
+			case sl.Low != nil && sl.High == nil && isCut(sl.Low, sl.X):
+				hi = sl
+			}
+		}
+	}
+	if lo != nil && hi != nil && p.Resolve(lo.X) == p.Resolve(hi.X) && p.Resolve(lo.High) == p.Resolve(hi.Low) {
+		return lo, hi
+	}
+	return nil, nil
+}
+
 // C06.NORESET
 func ruleNoReset(c *Ctx) {
 	n, ctl := 0, 0
@@ -871,14 +912,8 @@ func ruleAgree(c *Ctx) {
 		if bodyHas(h, isCall("crypto/hmac.New")) {
 			tagFn = h
 		}
-		n := 0
-		rs := h.Signature.Results()
-		for i := 0; i < rs.Len(); i++ {
-			if rs.At(i).Type().String() == "[]byte" {
-				n++
-			}
-		}
-		if n >= 2 {
+		// the split helper cuts a byte slice in two complementary parts at len(x) - K: x[:e] and x[e:]
+		if lo, hi := splitParts(p, h); lo != nil && hi != nil {
 			splitFn = h
 		}
 	}
@@ -892,10 +927,20 @@ func ruleAgree(c *Ctx) {
 		mark = k
 	}
 	c.Check("AGREE", short(splitFn)+":mark-length-is-a-positive-constant", p.Pos(splitFn.Pos()), mark > 0, "the split helper does not split at len(salt) minus a constant mark length")
+	// the two parts are recognised by shape — the slices cut in the split helper — however the helper hands them back
+	// (two results, or the fields of a small struct)
+	loPart, hiPart := splitParts(p, splitFn)
 	isSplit := func(idx int) func(ssa.Value) bool {
 		return func(v ssa.Value) bool {
-			cc, i, ok := eng.AsResult(v)
-			return ok && i == idx && callTo(c, cc, splitFn)
+			if os.Getenv("VERIF_DEBUG") != "" {
+				fmt.Fprintf(os.Stderr, "isSplit(%d) %s: lo=%v hi=%v origins=%s\n", idx, valStr(p, v), loPart, hiPart, valsStr(p, fsOrigins(c, v)))
+			}
+			return fsAll(c, v, func(o ssa.Value) bool {
+				if idx == 0 {
+					return o == ssa.Value(loPart)
+				}
+				return o == ssa.Value(hiPart)
+			})
 		}
 	}
 	isTag := func(v ssa.Value) bool {
@@ -916,7 +961,7 @@ func ruleAgree(c *Ctx) {
 			c.CheckAt("AGREE", short(f)+":splits-the-given-salt", sc, okS, "the split helper is not applied to the salt passed in")
 		}
 		for _, tc := range pair.reg.FindCalls(func(_ string, call *ssa.Call) bool { return callTo(c, call, tagFn) }) {
-			okT, _ := p.AllFrom(tc.Call.Args[len(tc.Call.Args)-1], deepF, isSplit(0))
+			okT := isSplit(0)(tc.Call.Args[len(tc.Call.Args)-1])
 			c.CheckAt("AGREE", short(f)+":split(salt)-then-tag(prefix)", tc, okT, "the tag is not computed over the prefix that the split helper returned for this salt")
 		}
 	}
@@ -936,7 +981,7 @@ func ruleAgree(c *Ctx) {
 	okCmp := false
 	for _, call := range ireg.FindCalls(func(n string, _ *ssa.Call) bool { return isCompare(n) }) {
 		for i := 0; i < 2; i++ {
-			other, _ := p.AllFrom(call.Call.Args[1-i], deepF, isSplit(1))
+			other := isSplit(1)(call.Call.Args[1-i])
 			if other && markOfTag(call.Call.Args[i]) {
 				okCmp = true
 			}
@@ -948,7 +993,7 @@ func ruleAgree(c *Ctx) {
 	for _, cl := range greg.Calls() {
 		if call, ok := cl.(*ssa.Call); ok {
 			if b, ok := call.Call.Value.(*ssa.Builtin); ok && b.Name() == "copy" {
-				d, _ := p.AllFrom(call.Call.Args[0], deepF, isSplit(1))
+				d := isSplit(1)(call.Call.Args[0])
 				s2 := p.AnyFrom(call.Call.Args[1], thru, isTag)
 				s3, _ := p.AllFrom(call.Call.Args[1], thru, isTag)
 				if d && s2 && s3 {
